@@ -66,6 +66,8 @@ def run(tier):
     ctx = Ctx("C19", tier)
     q = ctx.quick
     builds = ["asan-avx2", "prod-avx2"] if q else ["asan-avx2", "prod-avx2", "asan-sse", "prod-dyn"]
+    # design level: the handler's I-model against the property (spec/Schema.tla)
+    M.mc_schema(ctx)
     recs = M.gen_pairs(ctx, 3, 3, 4, "Gen_Schema_33") if q else M.gen_pairs(ctx, 4, 3, 4, "Gen_Schema_43")
     # three declared keys with nested objects, text providing subsets in both orders plus an undeclared key
     recs += M.gen_pairs(ctx, 2, 2, 4, "Gen_Schema_wide3", smode="wide3", layv=0 if q else 2)
